@@ -25,19 +25,19 @@ Print Assumptions C16_refuted.
 (* closed witnesses of class 1 (overlapping windows on one row); the harness replays exactly
    these against the real phases on every run (cases "witness:*") *)
 Theorem C16_refuted_fields :
-  let c := CSched wit_rt wit_db 4%N wit_fields wit_sigma false in
+  let c := CSched wit_rt wit_db 6%N wit_fields wit_sigma false in
   known_C16 c = [1] /\ wf_case c = true /\ complete 2 wit_sigma = true /\
   (exists s, run_sched wit_rt wit_db wit_fields wit_sigma = Some s /\ s_acked s = [0; 1]%nat /\
      (exists r, find_row 1%N (s_db s) = Some r /\
                 get_field 0%N (r_fields r) = Some 1 /\ get_field 1%N (r_fields r) = Some 22) /\
      (forall pi, Permutation [0; 1]%nat pi ->
-                 obs_db 4%N (fold_left (spec_apply_i wit_fields) pi wit_db) <> obs_db 4%N (s_db s))) /\
+                 obs_db 6%N (fold_left (spec_apply_i wit_fields) pi wit_db) <> obs_db 6%N (s_db s))) /\
   spec_C16 c (run_C16 c) = false.
 Proof. exact refuted_fields. Qed.
 Print Assumptions C16_refuted_fields.
 
 Theorem C16_refuted_reference :
-  let c := CSched wit_rt wit_db 4%N wit_refs wit_sigma false in
+  let c := CSched wit_rt wit_db 6%N wit_refs wit_sigma false in
   known_C16 c = [1] /\ wf_case c = true /\
   (exists s, run_sched wit_rt wit_db wit_refs wit_sigma = Some s /\ s_acked s = [0; 1]%nat /\
      length (get_edges 1%N (edges_of 1%N (s_db s))) = 2%nat /\
@@ -48,7 +48,7 @@ Proof. exact refuted_reference. Qed.
 Print Assumptions C16_refuted_reference.
 
 Theorem C16_refuted_room_move :
-  let c := CSched wit_rt wit_db 4%N wit_room wit_sigma false in
+  let c := CSched wit_rt wit_db 6%N wit_room wit_sigma false in
   known_C16 c = [1] /\ wf_case c = true /\
   (exists s, run_sched wit_rt wit_db wit_room wit_sigma = Some s /\ s_acked s = [0; 1]%nat /\
      (exists r, find_row 1%N (s_db s) = Some r /\ r_room r = Some 1%N /\ get_field 0%N (r_fields r) = Some 1) /\
@@ -62,7 +62,7 @@ Print Assumptions C16_refuted_room_move.
    update lands on the rowid that the NEW row took over: all three acknowledged, the deleted row
    is back, the new row is gone *)
 Theorem C16_refuted_rowid_takeover :
-  let c := CSched wit_rt wit_db 4%N wit_takeover takeover_sigma false in
+  let c := CSched wit_rt wit_db 6%N wit_takeover takeover_sigma false in
   known_C16 c = [1] /\ wf_case c = true /\
   (exists s, run_sched wit_rt wit_db wit_takeover takeover_sigma = Some s /\ s_acked s = [1; 2; 0]%nat /\
      find_row 1%N (s_db s) <> None /\ find_row 11%N (s_db s) = None /\
@@ -135,7 +135,7 @@ Print Assumptions C16_outside_known.
 (* the former class 2 (a mutation that only names another room was acknowledged and dropped),
    fixed in /repo by 07628ab: now a passing witness, replayed by the harness ("witness:room-only") *)
 Example C16_room_only_moves :
-  let c := CSched wit_rt wit_db 4%N wit_room_only seq_sigma false in
+  let c := CSched wit_rt wit_db 6%N wit_room_only seq_sigma false in
   known_C16 c = [] /\ wf_case c = true /\
   (exists s, run_sched wit_rt wit_db wit_room_only [R 0; V 0; W 0]%nat = Some s /\ s_acked s = [0]%nat /\
      exists r, find_row 1%N (s_db s) = Some r /\ r_room r = Some 2%N /\ r_mdate r = 1000) /\
@@ -144,7 +144,7 @@ Proof. exact room_only_moves. Qed.
 Print Assumptions C16_room_only_moves.
 
 Example C16_nonvacuous :
-  let c := CSched wit_rt nv_db 4%N nv_ms nv_sigma false in
+  let c := CSched wit_rt nv_db 6%N nv_ms nv_sigma false in
   known_C16 c = [] /\ wf_case c = true /\
   (exists s, run_sched wit_rt nv_db nv_ms nv_sigma = Some s /\ s_acked s = [1; 0; 3]%nat /\ s_refused s = [2]%nat) /\
   windows_ok nv_ms [] [R 0; R 2; V 0; W 0; V 2; W 2]%nat = false.
